@@ -29,6 +29,11 @@ def cases(tier, seed):
     out = []
     for i in range(0, len(specs), 8):
         out.append({'k': 'graphs', 'specs': specs[i:i + 8]})
+    for v in range(4):
+        for b in BUDGETS:
+            for k in (1, 2):
+                for ws in ('equal', 'none'):
+                    out.append({'k': 'one', 'equal': v, 'ws': ws, 'budget': b, 'n': k, 'spec': None})
     # frames holding more objects than the watch processor's own budget (default 1000)
     for n in (998, 1000, 1002, 1200):
         for ws in ('temp', 'same', 'alias', 'failing'):
@@ -108,15 +113,50 @@ def has_sharing(spec):
     return False
 
 
+def equal_but_distinct(variant):
+    """Locals holding equal-but-distinct objects (what parsing, slicing, arithmetic and I/O produce all the time)."""
+    def s():
+        return ''.join(['sta', 'tus-ok'])     # a new str object on every call
+
+    def n():
+        return int('123456789')               # beyond the small-int cache
+
+    def t():
+        return tuple([1, 2])
+    if variant == 0:
+        loc = {'a': [s(), s()], 'b': {'k0': s(), 'k1': s()}, 'z': s()}
+        watches = ["''.join(['sta', 'tus-ok'])", 'a[0]', 'a[1]']
+    elif variant == 1:
+        loc = {'a': [n(), n(), float('2.5'), float('2.5')], 'b': (t(), t()), 'z': n()}
+        watches = ["int('123456789')", 'b[0]', 'tuple([1, 2])']
+    elif variant == 2:
+        o = graphs.Obj()
+        o.a0, o.a1 = s(), s()
+        loc = {'a': o, 'b': [bytes(b'xy' * 3), bytes(b'xy' * 3)], 'z': frozenset([n()])}
+        watches = ['a.a0', 'a.a1', "bytes(b'xy' * 3)"]
+    else:
+        e1, e2 = ValueError(s()), ValueError(s())
+        loc = {'a': [e1, e2], 'b': {'k0': [s()], 'k1': [s()]}, 'z': 7}
+        watches = ['a[0].args[0]', "b['k1']", "b['k0'][0]"]
+    return loc, watches
+
+
 def check_one(ctx, desc):
-    spec, ws, budget, k = desc['spec'], desc['ws'], desc['budget'], desc['n']
-    try:
-        objs, loc = graphs.build(spec)
-    except graphs.Unbuildable:
-        return
-    watches = watches_for(ws, spec)
-    if watches is None:
-        return
+    ws, budget, k = desc['ws'], desc['budget'], desc['n']
+    if desc.get('equal') is not None:
+        loc, watches = equal_but_distinct(desc['equal'])
+        spec = {'nodes': [], 'locals': [[n_, None] for n_ in loc], 'equal': desc['equal']}
+        if ws == 'none':
+            watches = []
+    else:
+        spec = desc['spec']
+        try:
+            objs, loc = graphs.build(spec)
+        except graphs.Unbuildable:
+            return
+        watches = watches_for(ws, spec)
+        if watches is None:
+            return
     cfg = {'watches': watches, 'MAX_VARIABLES': budget}
     agent, run, info = snapref.take(loc, [cfg] * k)
     ctx.case()
@@ -125,7 +165,7 @@ def check_one(ctx, desc):
         return
     levels = snapref.ref_levels(loc, None)
     byid = {str(i): o for i, (l, o) in levels.items()}
-    if has_sharing(spec) or ws in ('same', 'alias', 'locals', 'two_temps') or budget < len(levels):
+    if desc.get('equal') is not None or has_sharing(spec) or ws in ('same', 'alias', 'locals', 'two_temps') or budget < len(levels):
         ctx.nt((str(spec), ws, budget, k))
     for si, snap in enumerate(agent.snapshots):
         table = snap.var_lookup
@@ -173,12 +213,28 @@ def check_one(ctx, desc):
                 ctx.violation('C07/frame-variable-wrong-object', f'local {v.name} leads to the entry of another object', desc)
                 return
         # 4. termination with back references
-        extra = {'none': 0, 'same': 0, 'alias': 0, 'temp': 4, 'two_temps': 10, 'locals': 0, 'failing': 3}[ws]
+        extra = {'none': 0, 'same': 0, 'alias': 0, 'temp': 4, 'two_temps': 10, 'locals': 0, 'failing': 3, 'equal': 6}[ws]
         if len(table) > len(levels) + extra + 1:
             ctx.violation('C07/repetition-instead-of-back-reference', f'graph {spec}: {len(table)} entries for {len(levels)} distinct reachable objects', desc)
             return
         # watches
         wres = [w for w in snap.watches if w.source == 'WATCH']
+        if desc.get('equal') is not None and budget >= 1000:
+            # a watch that builds a fresh object equal to one in the frame must get its own entry; a watch that aliases one must not
+            top = {v.name: v.vid for v in snap.frames[0].variables}
+            for w in wres:
+                if w.error is not None or w.result is None:
+                    continue
+                ent = table.get(w.result.vid)
+                is_alias = any(ch in w.expression for ch in '[.') and '(' not in w.expression
+                known = ent.hash in byid
+                if is_alias and not known:
+                    ctx.violation('C07/alias-gets-second-entry/equal-values', f'watch {w.expression!r} aliases collected data but was given a new entry', desc)
+                    return
+                if not is_alias and known:
+                    ctx.violation('C07/different-objects-share-entry/equal-values', f'watch {w.expression!r} builds a new object, yet it was reported as a '
+                                                                                     f'reference to the equal object already in the frame ({ent.type} {ent.value!r})', desc)
+                    return
         if [w.expression for w in wres] != watches:
             ctx.violation('C07/watch-list', f'watch results {[w.expression for w in wres]} for {watches}', desc)
             return
@@ -205,5 +261,5 @@ def check_one(ctx, desc):
                               f'watches {watches} evaluate to distinct temporaries, recorded children {vals}: an id was reused for another object', desc)
                 return
     ctx.outcome((ws, budget, k, len(agent.snapshots[0].var_lookup)))
-    if len(ctx.samples) < 3 and has_sharing(spec) and ws == 'alias':
+    if len(ctx.samples) < 3 and desc.get('equal') is None and has_sharing(spec) and ws == 'alias':
         ctx.sample({'graph': spec, 'watches': watches, 'budget': budget, 'entries': len(agent.snapshots[0].var_lookup)})
